@@ -10,6 +10,25 @@ def H(name, tier="quick", flags=(), timeout=600, mem_gb=8, bounds="", expect_fai
     return d
 
 
+# --------------------------------------------------------------------------- C03
+_C03_A = ["add", "sub", "lt", "gt", "slt", "sgt", "eq", "iszero", "and", "or", "xor", "not", "byte", "shl", "shr", "sar",
+          "shl_petersburg", "signextend"]
+PROPS["C03"] = dict(
+    functions=["revm_interpreter::instructions::arithmetic::{add, sub, signextend}",
+               "revm_interpreter::instructions::bitwise::{lt, gt, slt, sgt, eq, iszero, bitand, bitor, bitxor, not, byte, shl, shr, sar}",
+               "revm_interpreter::instructions::i256::i256_cmp", "macros gas!/pop_top!/check! as expanded in those functions"],
+    bounds="Group A: all 2^256 values of every operand and of the word below them, all u64 gas values; stack depth arity+1 (functional harness) "
+           "and arity-1 (underflow harness); SPEC = LatestSpec, PetersburgSpec, ByzantiumSpec for the shift gate; unwind 6",
+    outside="MUL DIV SDIV MOD SMOD ADDMOD MULMOD EXP (group B) are not yet decided here; stack depths other than arity-1/arity+1; "
+            "the Interpreter is assembled field by field with empty code and an 8-word stack buffer (these opcodes never push or read code)",
+    assumptions=["reference models are limb-wise (carry chains, funnel shifts, explicit sign tests) and do not use ruint",
+                 "NoHost: any host call is a failure", "Kani/CBMC/CaDiCaL trusted"],
+    harnesses=[H("c03::c03_" + n, bounds="all operands x all gas", timeout=900, mem_gb=6) for n in _C03_A]
+    + [H("c03::c03_" + n + "::underflow", bounds="one operand short", timeout=600, mem_gb=4) for n in _C03_A]
+    + [H("c03::c03_shifts_not_activated_before_constantinople", bounds="SHL/SHR/SAR under ByzantiumSpec", mem_gb=4),
+       H("c03::c03_twin_must_fail", expect_fail=True, bounds="vacuity twin", mem_gb=6)],
+)
+
 # --------------------------------------------------------------------------- C13
 PROPS["C13"] = dict(
     functions=["revm_interpreter::Gas::{new,new_spent,record_cost,erase_cost,spend_all,record_refund,set_final_refund,"
@@ -57,6 +76,41 @@ PROPS["C32"] = dict(
     jobs=[dict(name="e2::fake_exponential_certificate", fn=jobs_c32.run)],
 )
 
+# --------------------------------------------------------------------------- C14
+PROPS["C14"] = dict(
+    functions=["revm_interpreter::gas::{sstore_cost, sstore_refund, sload_cost, call_cost, selfdestruct_cost, extcodecopy_cost, verylowcopy_cost, "
+               "keccak256_cost, log_cost, create2_cost, initcode_cost, exp_cost, memory_gas, memory_gas_for_len, cost_per_word, warm_cold_cost, "
+               "warm_cold_cost_with_delegation, calc_tx_floor_cost, get_tokens_in_calldata, calculate_initial_tx_gas} (crates/interpreter/src/gas/calc.rs)",
+               "revm_interpreter::num_words (crates/interpreter/src/interpreter/shared_memory.rs)"],
+    bounds="all u64 lengths <= 2^64-32 (top 31 lengths: separate harness, known finding D6); all 2^768 (original,present,new) storage triples; all u64 gas; "
+           "every defined SpecId (symbolic via try_from_u8); all 256-bit exponents; calldata <= 8 symbolic bytes; access list <= 2 items x <= 2 keys; "
+           "authorization count <= 2^32; cost_per_word multiplier <= 2^20; floor tokens <= 2^40",
+    outside="calldata longer than 8 bytes and larger access lists (the per-byte/per-item sums are uniform; no induction claimed)",
+    assumptions=["reference formulas are transcribed in the harness from EIP-150/160/161/1884/2028/2200/2929/2930/3529/3860/7623/7702 with literal numbers",
+                 "Kani 0.68/CBMC 6.11/CaDiCaL trusted"],
+    harnesses=[
+        H("c14::c14_num_words", bounds="all len <= 2^64-32"),
+        H("c14::c14_num_words_top31", bounds="len in (2^64-32, 2^64)"),
+        H("c14::c14_word_costs", bounds="all len <= 2^64-32, multiplier <= 2^20", timeout=900),
+        H("c14::c14_initcode_cost", bounds="all len <= 2^64-32"),
+        H("c14::c14_extcodecopy_cost", bounds="all SpecIds x all len x cold"),
+        H("c14::c14_log_cost", bounds="topics 0..4 x all u64 len"),
+        H("c14::c14_memory_gas", bounds="all u64 word counts", timeout=900),
+        H("c14::c14_memory_gas_for_len", bounds="all usize len whose cost fits", timeout=900),
+        H("c14::c14_exp_cost", bounds="all SpecIds x all 256-bit exponents; ruint checked_mul replaced by an exact 64x64 stub that asserts its domain",
+          stubs_expected=["checked_mul"]),
+        H("c14::c14_initial_tx_gas", bounds="all SpecIds; calldata <= 8 symbolic bytes; access list <= 2 items x <= 2 keys; auth count <= 2^32; create/call", timeout=900),
+        H("c14::c14_sstore_cost", bounds="all SpecIds x all value triples x all gas x cold"),
+        H("c14::c14_sstore_refund", bounds="all SpecIds x all value triples"),
+        H("c14::c14_sload_and_warm_cold", bounds="all SpecIds x flags"),
+        H("c14::c14_call_cost", bounds="all SpecIds x flags x delegation states"),
+        H("c14::c14_selfdestruct_cost", bounds="all SpecIds x flags"),
+        H("c14::c14_floor_cost", bounds="tokens <= 2^40"),
+        H("c14::c14_tokens_in_calldata", bounds="<= 8 symbolic bytes, symbolic length"),
+        H("c14::c14_twin_must_fail", expect_fail=True, bounds="vacuity twin"),
+    ],
+)
+
 # --------------------------------------------------------------------------- manifest text per claimed property
 CLAIMS = {
     "C13": dict(
@@ -67,6 +121,16 @@ CLAIMS = {
              "refunded>=0 before set_final_refund. Sequences >4 steps only via the inductive invariant.",
         technique="Kani/CBMC bounded model checking of the real Gas methods (SAT, full 64-bit domain, single-step induction + 4-step sequences)",
         design_ref="DESIGN.md §5 C13"),
+    "C14": dict(
+        text="Every public gas formula is compared by CBMC against a reference transcribed from the EIPs with literal numbers (u128 arithmetic), "
+             "for all 64-bit lengths, all 256-bit storage-value triples and exponents and every SpecId as a symbolic value; None/saturation is required "
+             "exactly when the true cost exceeds 64 bits. The solver reaches the boundary cases (2^32+ words, lengths near 2^64, the 3-value "
+             "relation matrix x 21 forks) that example-based tests cannot enumerate.",
+        note="Bounds: calldata <= 8 bytes, access list <= 2x2 in the intrinsic-gas harness; ruint checked_mul is stubbed (exact on asserted 64-bit domain) "
+             "in exp_cost. num_words is one word short for the top 31 lengths (known finding D6, pinned by the repo's own unit test). "
+             "Trusted: Kani/CBMC/CaDiCaL, the EIP transcription in the harness.",
+        technique="Kani/CBMC bounded model checking of the real gas functions against EIP reference formulas (full 64/256-bit domains, symbolic SpecId)",
+        design_ref="DESIGN.md §5 C14"),
     "C32": dict(
         text="calc_excess_blob_gas is decided for all u64 triples by CBMC. fake_exponential is translated from the nightly MIR dump into SMT-LIB "
              "(integers with explicit u128 overflow flags) and an inductive per-iteration certificate is discharged by z3 and cvc5: for every "
